@@ -1,1 +1,296 @@
 //! Verification hooks: ops (cfg `rten_verif`).
+//!
+//! Lets the external harness construct operators the way the model loader does
+//! (through the ONNX operator registry's reader, from an op type plus a list of
+//! attributes), construct the fused operators that only the optimizer creates,
+//! and call `Operator::{run, run_in_place}` with a `BufferPool`.
+#![cfg(feature = "onnx_format")]
+
+use std::sync::Arc;
+
+use rten_onnx::onnx;
+
+use crate::buffer_pool::BufferPool;
+use crate::graph::{Constant, Graph};
+use crate::op_registry::ReadOpError;
+use crate::op_registry::onnx_registry::{OnnxOpRegistry, OpLoadContext};
+use crate::operator::{
+    InPlaceInputs, InputList, OpError, OpRunContext, Operator, OutputMask,
+};
+use crate::ops;
+use crate::ops::transform_inputs::TransformInputsBuilder;
+use crate::value::{Value, ValueView};
+
+/// Attribute value used to describe an operator to [`read_onnx_op`].
+#[derive(Clone, Debug)]
+pub enum Attr {
+    Int(i64),
+    Ints(Vec<i64>),
+    Float(f32),
+    Floats(Vec<f32>),
+    Str(String),
+    Strs(Vec<String>),
+    /// Float tensor attribute `(dims, data)`.
+    TensorF32(Vec<i64>, Vec<f32>),
+    /// Int64 tensor attribute `(dims, data)`.
+    TensorI64(Vec<i64>, Vec<i64>),
+}
+
+struct LoadCtx {
+    opset: Option<u16>,
+}
+
+impl OpLoadContext for LoadCtx {
+    fn load_graph(&self, _graph: &onnx::GraphProto) -> Result<Graph, ReadOpError> {
+        Ok(Graph::new())
+    }
+
+    fn opset_version(&self) -> Option<u16> {
+        self.opset
+    }
+
+    fn load_tensor(
+        &self,
+        attr_name: &str,
+        tensor: &onnx::TensorProto,
+    ) -> Result<Constant, ReadOpError> {
+        crate::model::onnx_loader::load_constant(tensor, None, None)
+            .map_err(|err| ReadOpError::attr_error(attr_name, err.to_string()))
+    }
+}
+
+/// An operator instance, as the graph executor holds it.
+#[derive(Clone)]
+pub struct VOp {
+    op: Arc<dyn Operator + Send + Sync>,
+}
+
+/// Kind of an operator error (messages dropped).
+pub fn error_kind(err: &OpError) -> &'static str {
+    match err {
+        OpError::CastFailed(_) => "CastFailed",
+        OpError::InputCastFailed { .. } => "InputCastFailed",
+        OpError::UnsupportedType => "UnsupportedType",
+        OpError::IncompatibleInputShapes(_) => "IncompatibleInputShapes",
+        OpError::MissingInputs => "MissingInputs",
+        OpError::InvalidValue(_) => "InvalidValue",
+        OpError::UnsupportedValue(_) => "UnsupportedValue",
+        OpError::UnsupportedOutput(_) => "UnsupportedOutput",
+    }
+}
+
+/// Buffer pool handle (the type is crate-private).
+pub struct Pool(BufferPool);
+
+impl Pool {
+    pub fn new() -> Pool {
+        Pool(BufferPool::new())
+    }
+
+    /// Number of buffers currently held by the pool.
+    pub fn len(&self) -> usize {
+        self.0.len()
+    }
+}
+
+impl Default for Pool {
+    fn default() -> Self {
+        Self::new()
+    }
+}
+
+/// Construct an operator through the ONNX registry's reader, exactly as the
+/// model loader does for a node with the given domain, type and attributes.
+///
+/// Fails if the operator is unknown, an attribute is invalid, an attribute was
+/// not consumed by the reader or the reader wants to turn attributes into
+/// inputs (the harness passes every input explicitly).
+pub fn read_onnx_op(
+    domain: &str,
+    op_type: &str,
+    attrs: &[(&str, Attr)],
+    opset: Option<u16>,
+) -> Result<VOp, String> {
+    let mut node = onnx::NodeProto {
+        op_type: Some(op_type.to_string()),
+        ..Default::default()
+    };
+    if !domain.is_empty() {
+        node.domain = Some(domain.to_string());
+    }
+    for (name, val) in attrs {
+        let mut ap = onnx::AttributeProto {
+            name: Some(name.to_string()),
+            ..Default::default()
+        };
+        match val {
+            Attr::Int(i) => {
+                ap.i = Some(*i);
+                ap.r#type = Some(onnx::AttributeType::INT);
+            }
+            Attr::Ints(v) => {
+                ap.ints = v.clone();
+                ap.r#type = Some(onnx::AttributeType::INTS);
+            }
+            Attr::Float(f) => {
+                ap.f = Some(*f);
+                ap.r#type = Some(onnx::AttributeType::FLOAT);
+            }
+            Attr::Floats(v) => {
+                ap.floats = v.clone();
+                ap.r#type = Some(onnx::AttributeType::FLOATS);
+            }
+            Attr::Str(s) => {
+                ap.s = Some(s.clone());
+                ap.r#type = Some(onnx::AttributeType::STRING);
+            }
+            Attr::Strs(v) => {
+                ap.strings = v.clone();
+                ap.r#type = Some(onnx::AttributeType(8));
+            }
+            Attr::TensorF32(dims, data) => {
+                ap.t = Some(onnx::TensorProto {
+                    dims: dims.clone(),
+                    data_type: Some(onnx::DataType::FLOAT),
+                    float_data: data.clone(),
+                    ..Default::default()
+                });
+                ap.r#type = Some(onnx::AttributeType(4));
+            }
+            Attr::TensorI64(dims, data) => {
+                ap.t = Some(onnx::TensorProto {
+                    dims: dims.clone(),
+                    data_type: Some(onnx::DataType::INT64),
+                    int64_data: data.clone(),
+                    ..Default::default()
+                });
+                ap.r#type = Some(onnx::AttributeType(4));
+            }
+        }
+        node.attribute.push(ap);
+    }
+
+    let reg = OnnxOpRegistry::with_all_ops();
+    let parsed = reg
+        .read_op(&node, &LoadCtx { opset })
+        .map_err(|e| e.to_string())?;
+    if !parsed.unused_attrs.is_empty() {
+        return Err("unused attributes".to_string());
+    }
+    if !parsed.const_inputs.is_empty() {
+        return Err("attributes promoted to inputs".to_string());
+    }
+    Ok(VOp { op: parsed.op })
+}
+
+/// Construct one of the fused operators that are created by the graph
+/// optimizer rather than read from a model file.
+pub fn fused_op(name: &str, ints: &[i64], floats: &[f32]) -> Option<VOp> {
+    let int = |i: usize| ints.get(i).copied().unwrap_or(0);
+    let flt = |i: usize| floats.get(i).copied();
+    let op: Arc<dyn Operator + Send + Sync> = match name {
+        "AddSoftmax" => Arc::new(ops::AddSoftmax {
+            flush_nans_to_zero: int(0) != 0,
+        }),
+        "FusedMatMul" => Arc::new(ops::FusedMatMul { alpha: flt(0) }),
+        "RepeatInterleave" => Arc::new(ops::RepeatInterleave {
+            axis: int(0) as usize,
+            repeats: int(1) as usize,
+        }),
+        "GroupedQueryAttentionMatMul" => Arc::new(ops::GroupedQueryAttentionMatMul {
+            repeats: int(0) as usize,
+            alpha: flt(0),
+            transpose_rhs: int(1) != 0,
+        }),
+        "Silu" => Arc::new(ops::Silu {}),
+        _ => return None,
+    };
+    Some(VOp { op })
+}
+
+/// Names accepted by [`fused_op`].
+pub fn fused_op_names() -> &'static [&'static str] {
+    &[
+        "AddSoftmax",
+        "FusedMatMul",
+        "RepeatInterleave",
+        "GroupedQueryAttentionMatMul",
+        "Silu",
+    ]
+}
+
+impl VOp {
+    /// Wrap this operator in the `TransformInputs` fused operator, permuting
+    /// the given inputs (`None` = reverse the axes) before the inner operator runs.
+    pub fn with_permuted_inputs(&self, perms: &[(usize, Option<Vec<usize>>)]) -> VOp {
+        let mut builder = TransformInputsBuilder::new();
+        for (index, perm) in perms {
+            builder = builder.permute(*index, perm.clone());
+        }
+        VOp {
+            op: Arc::new(builder.build(self.op.clone())),
+        }
+    }
+
+    pub fn name(&self) -> String {
+        self.op.name().to_string()
+    }
+
+    pub fn in_place_inputs(&self) -> Vec<usize> {
+        self.op
+            .in_place_inputs()
+            .iter()
+            .map(|i| i as usize)
+            .collect()
+    }
+
+    pub fn is_commutative(&self) -> bool {
+        self.op.is_commutative()
+    }
+
+    pub fn is_deterministic(&self) -> bool {
+        self.op.is_deterministic()
+    }
+
+    pub fn max_inputs(&self) -> Option<usize> {
+        self.op.max_inputs()
+    }
+
+    pub fn max_outputs(&self) -> Option<usize> {
+        self.op.max_outputs()
+    }
+
+    /// `Operator::run` with all `n_outputs` outputs requested.
+    pub fn run(
+        &self,
+        pool: &Pool,
+        inputs: &[Option<ValueView>],
+        n_outputs: usize,
+    ) -> Result<Vec<Value>, &'static str> {
+        let inputs = InputList::from_optional(inputs);
+        let ctx = OpRunContext::new(&pool.0, &inputs, OutputMask::all_used(n_outputs));
+        self.op
+            .run(&ctx)
+            .map(|outs| outs.into_iter().collect())
+            .map_err(|e| error_kind(&e))
+    }
+
+    /// `Operator::run_in_place`. `in_place` holds `(input position, owned
+    /// value)` pairs; `inputs` must have `None` at those positions, as the
+    /// graph executor arranges.
+    pub fn run_in_place(
+        &self,
+        pool: &Pool,
+        in_place: Vec<(usize, Value)>,
+        inputs: &[Option<ValueView>],
+        n_outputs: usize,
+    ) -> Result<Vec<Value>, &'static str> {
+        let inputs = InputList::from_optional(inputs);
+        let ctx = OpRunContext::new(&pool.0, &inputs, OutputMask::all_used(n_outputs));
+        let in_place = InPlaceInputs::from_iter(in_place);
+        self.op
+            .run_in_place(in_place, &ctx)
+            .map(|outs| outs.into_iter().collect())
+            .map_err(|e| error_kind(&e))
+    }
+}
